@@ -192,7 +192,7 @@ class PyGen:
         if k == "dict":
             items = []
             for _ in range(self.r.randint(0, 3)):
-                items.append(f"**{self.primary(d + 1)}" if self.p(0.2) else f"{e()}: {e()}")
+                items.append((f"**{self.primary(d + 1)}" if self.p(0.7) else f"**{e()}") if self.p(0.2) else f"{e()}: {e()}")
             return "{" + ", ".join(items) + self.pick(["", ","] if items else [""]) + "}"
         if k == "set":
             return "{" + ", ".join(self.star_or_expr(d + 1) for _ in range(self.r.randint(1, 3))) + "}"
@@ -267,9 +267,9 @@ class PyGen:
             return f"{self.expr(d)} for {self.target(d)} in {self.expr(d)}"
         args = []
         for _ in range(self.r.randint(0, 3)):
-            args.append(self.wpick([(6, lambda: self.expr(d)), (1, lambda: f"*{self.primary(d)}"), (1, lambda: f"{self.plain_name()} := {self.expr(d)}" if False else self.expr(d))])())
+            args.append(self.wpick([(6, lambda: self.expr(d)), (1, lambda: f"*{self.primary(d)}"), (0.5, lambda: f"*{self.expr(d)}"), (0.5, lambda: f"{self.plain_name()} := {self.expr(d)}")])())
         for _ in range(self.r.randint(0, 2)):
-            args.append(self.wpick([(4, lambda: f"{self.plain_name()}={self.expr(d)}"), (1, lambda: f"**{self.primary(d)}"), (1, lambda: f"*{self.primary(d)}")])())
+            args.append(self.wpick([(4, lambda: f"{self.plain_name()}={self.expr(d)}"), (1, lambda: f"**{self.primary(d)}"), (1, lambda: f"*{self.primary(d)}"), (1, lambda: f"**{self.expr(d)}"), (0.5, lambda: f"*{self.expr(d)}")])())
         s = ", ".join(args)
         if args and self.p(0.15):
             s += ","
@@ -593,7 +593,7 @@ class PyGen:
                 if self.p(0.1):
                     args.append(f"*{self.name()}")
                 if self.p(0.1):
-                    args.append(f"**{self.name()}")
+                    args.append(f"**{self.name()}" if self.p(0.5) else f"**{self.expr(d + 1)}")
                 bases = "(" + ", ".join(args) + ")"
             return s + f"{ind}class {self.plain_name()}{tp}{bases}:{blk()}"
         # match
